@@ -1,0 +1,5 @@
+//go:build !verif
+
+package validator
+
+func verifCount(int) {}
